@@ -1,6 +1,6 @@
 """C15 — selection modes and path predicates are mutually consistent."""
 from .. import gen
-from . import common
+from . import common, longpaths
 
 SPEC_THEOREM = 'Props/C15: first = head of all; array = [all]; mixed; exists iff non-empty; offsets delimit items; predicate paths'
 TRUSTED = ['Coq 8.16.1 kernel', 'translator', 'extraction + OCaml driver', 'Rust harness', 'specification PathSem.v (select_t / build_values / build_array_items) and the offset-faithful selector SelWalk.v tied by correspondence',
@@ -31,28 +31,35 @@ def generate(ctx):
     r = ctx.rng
     ds = common.docs(ctx, ctx.scale(350, 15000), finite=False)
     ctx.trials = []
-    for v in ds:
+    def trial(v, p, is_pred):
         e = gen.hexarg(gen.enc(v))
+        ids = {}
+        for m in ('all', 'first', 'array', 'mixed'):
+            ids[m] = ctx.add('select %s %s %s' % (e, p, m)).id
+        ids['exists'] = ctx.add('sel_exists %s %s' % (e, p)).id
+        ids['pm'] = ctx.add('sel_predicate_match %s %s' % (e, p)).id
+        ids['g'] = ctx.add('get_by_path %s %s' % (e, p)).id
+        ids['gf'] = ctx.add('get_by_path_first %s %s' % (e, p)).id
+        ids['ga'] = ctx.add('get_by_path_array %s %s' % (e, p)).id
+        ids['pe'] = ctx.add('path_exists %s %s' % (e, p)).id
+        ids['pmatch'] = ctx.add('path_match %s %s' % (e, p)).id
+        # the same selection appended to a buffer that already holds an earlier result: the offsets must delimit the
+        # items in THAT buffer
+        pre = gen.enc(r.choice(ds)) if r.random() < 0.3 else None
+        if pre is not None:
+            for m in ('all', 'array', 'mixed'):
+                ids[m + '_pre'] = ctx.add('select@%s %s %s %s' % (pre.hex(), e, p, m)).id
+        ctx.trials.append((v, p, is_pred, ids, pre))
+
+    for v in ds:
         for _ in range(3):
             ps = common.gen_path(ctx, v)
-            p = common.path_text(ps)
-            ids = {}
-            for m in ('all', 'first', 'array', 'mixed'):
-                ids[m] = ctx.add('select %s %s %s' % (e, p, m)).id
-            ids['exists'] = ctx.add('sel_exists %s %s' % (e, p)).id
-            ids['pm'] = ctx.add('sel_predicate_match %s %s' % (e, p)).id
-            ids['g'] = ctx.add('get_by_path %s %s' % (e, p)).id
-            ids['gf'] = ctx.add('get_by_path_first %s %s' % (e, p)).id
-            ids['ga'] = ctx.add('get_by_path_array %s %s' % (e, p)).id
-            ids['pe'] = ctx.add('path_exists %s %s' % (e, p)).id
-            ids['pmatch'] = ctx.add('path_match %s %s' % (e, p)).id
-            # the same selection appended to a buffer that already holds an earlier result: the offsets must delimit the
-            # items in THAT buffer
-            pre = gen.enc(r.choice(ds)) if r.random() < 0.3 else None
-            if pre is not None:
-                for m in ('all', 'array', 'mixed'):
-                    ids[m + '_pre'] = ctx.add('select@%s %s %s %s' % (pre.hex(), e, p, m)).id
-            ctx.trials.append((v, p, ps[0][0] == 'P' and len(ps) == 1, ids, pre))
+            trial(v, common.path_text(ps), ps[0][0] == 'P' and len(ps) == 1)
+    # long chains of && / ||, deep nesting (no recursion budget in the model: the mode laws hold for them as well)
+    ldocs = [v for v in ds if len(gen.enc(v)) <= 200][:40]
+    for lab, p, is_pred in longpaths.paths(r, sizes=(64, 70, 300)):
+        for v in r.sample(ldocs, 2) + [('a', [('u', 1), ('u', 2), ('u', 3)])]:
+            trial(v, p, is_pred)
 
 
 def judge(ctx):
